@@ -29,7 +29,6 @@
     trace_bounded, trace_prefix_bounded, trace_of_run   (the driver's trace checker)
 -/
 import MdIt.Model.Nesting
-import MdIt.Gen.Consts
 
 namespace MdIt.Nesting
 
@@ -53,13 +52,9 @@ theorem sites_toList (s : Sites) (h : s.toList = currentSites.toList) : s = curr
 
 example : Sites.ofList currentSites.toList = some currentSites := by decide
 
-/-- **Tie to the source (regenerated on every run).** The level increments found by the static scan of
-the five recursive call sites in /repo are exactly the table the bounds are proved for. A reverted
-increment turns a `1` into a `0` in `Gen.Consts.levelSites` and this obligation fails. -/
-theorem gen_levelSites : MdIt.Gen.Consts.levelSites = currentSites.toList := by decide
-
-theorem gen_sites_raising :
-    (Sites.ofList MdIt.Gen.Consts.levelSites).map Sites.raising = some true := by decide
+/-! The tie to the source (`gen_levelSites`, `gen_sites_raising`: the level increments found by the static scan
+of the five recursive call sites in /repo are exactly the table the bounds are proved for) is in
+`Props/GenC02.lean`, regenerated and re-checked on every run. -/
 
 /-! ## Over the limit nothing nests -/
 
